@@ -377,13 +377,13 @@ func checkMain(args []string) int {
 	for _, v := range violLines {
 		fmt.Println(v)
 	}
+	for _, m := range inconclusive {
+		fmt.Printf("INCONCLUSIVE property=%s %s\n", prop, m)
+	}
 	if violations > 0 {
 		return 1
 	}
 	if len(inconclusive) > 0 {
-		for _, m := range inconclusive {
-			fmt.Printf("INCONCLUSIVE property=%s %s\n", prop, m)
-		}
 		return 2
 	}
 	return 0
@@ -426,7 +426,7 @@ func writeEvidence(prop, tierName string, tier int, seed int64, solver string, l
 		assertIDs += len(s.Asserts)
 		perH = append(perH, map[string]interface{}{"harness": s.Name, "paths": s.Paths, "pruned_infeasible": s.Pruned, "ssa_instructions": s.Instrs,
 			"queries": s.Queries, "sat": s.Sat, "unsat": s.Unsat, "solver_time_s": s.SolverTime.Seconds(), "max_decision_depth": s.MaxDepth,
-			"assertions_reached_paths": s.Asserts, "incomplete": s.Incomplete, "errors": s.Errors})
+			"assertions_reached_paths": s.Asserts, "incomplete": s.Incomplete, "errors": s.Errors, "engine_bounds_hit": keysOf(s.Notes)})
 		for i, wt := range s.Witnesses {
 			if i >= 2 {
 				break
@@ -489,4 +489,13 @@ func writeEvidence(prop, tierName string, tier int, seed int64, solver string, l
 	os.MkdirAll(filepath.Join(verifDir, "evidence"), 0755)
 	b, _ := json.MarshalIndent(ev, "", " ")
 	os.WriteFile(filepath.Join(verifDir, "evidence", prop+".json"), b, 0644)
+}
+
+func keysOf(m map[string]bool) []string {
+	var r []string
+	for k := range m {
+		r = append(r, k)
+	}
+	sort.Strings(r)
+	return r
 }
